@@ -1232,6 +1232,12 @@ func (loader *Loader) resolvePathItemRef(doc *T, pathItem *PathItem, documentPat
 				}
 				return
 			}
+			if resolved.Ref != "" {
+				// the target is itself a reference: resolve it before it is copied
+				if err = loader.resolvePathItemRef(doc, &resolved, documentPath); err != nil {
+					return
+				}
+			}
 			*pathItem = resolved
 		}
 		pathItem.Ref = ref
